@@ -17,6 +17,18 @@ from autograd.numpy.numpy_vjps import untake
 warnings.simplefilter("ignore")
 
 
+from autograd.extend import primitive as _prim, defvjp as _defvjp, defjvp as _defjvp  # noqa: E402
+
+
+@_prim
+def fma(a, b, c):
+    return a * b + c
+
+
+_defvjp(fma, lambda ans, a, b, c: lambda g: g * b, lambda ans, a, b, c: lambda g: g * a, lambda ans, a, b, c: lambda g: g)
+_defjvp(fma, lambda g, ans, a, b, c: g * b, lambda g, ans, a, b, c: g * a, lambda g, ans, a, b, c: g)
+
+
 def main():
     cfg = json.load(sys.stdin)
     rng = random.Random(cfg["seed"])
@@ -84,6 +96,10 @@ def main():
         ("where-clip", lambda x, c: anp.where(c > 0, x, c) + anp.clip(x, -1.0, 1.0)),
         ("concat-split", lambda x, c: anp.concatenate([x, c, x]) [1:-1]),
         ("container", lambda x, c: sum([x, c * x][i] for i in range(2)) + x),
+        # one primitive call with three traced arguments (the general branch of defvjp)
+        ("where-3-traced", lambda x, c: anp.where(x, x * c, x + c) + x),
+        ("fma-3-traced", lambda x, c: fma(x, x * c, x + c) + fma(x, x, x)),
+        ("fma-chain", lambda x, c: fma(fma(x, c, x), x, fma(x, x, c)) * x),
     ]
     for rep in range(cfg["n_progs"]):
         name, f = progs[rep % len(progs)]
@@ -136,7 +152,7 @@ def main():
         plan = []
         n_nodes = rng.randint(4, 9)
         for i in range(n_nodes):
-            kind = rng.choice(["add", "add", "mul", "sq", "cube", "scale"])
+            kind = rng.choice(["add", "add", "mul", "sq", "cube", "scale", "fma", "fma"])
             a = rng.randrange(-1, i) if i else -1          # -1 = the input itself
             b = rng.randrange(-1, i) if i else -1
             plan.append((kind, a, b, rng.randrange(2)))
@@ -151,6 +167,8 @@ def main():
                     vals.append(get(a) + get(b))
                 elif kind == "mul":
                     vals.append(get(a) * get(b))
+                elif kind == "fma":
+                    vals.append(fma(get(a), get(b), get(a if c else b)))
                 elif kind == "sq":
                     vals.append(get(a) ** 2)
                 elif kind == "cube":
@@ -178,8 +196,9 @@ def main():
             if float(onp.sum(g * jt)) != float(onp.sum(onp.asarray(r1) * v)):
                 probs.append("<g, jvp v> = %r but <vjp g, v> = %r: the backward accumulation is wrong"
                              % (float(onp.sum(g * jt)), float(onp.sum(onp.asarray(r1) * v))))
-            if not onp.all(onp.asarray(vjp(g)) == onp.asarray(r1)):
-                probs.append("a second call of the same vjp returned a different answer")
+            for _ in range(2):
+                if not onp.all(onp.asarray(vjp(g)) == onp.asarray(r1)):
+                    probs.append("a later call of the same vjp returned a different answer")
             if probs:
                 out["oracle_bad"].append({"oracle": "random-dag", "plan": plan, "terms": terms, "x": x.tolist(),
                                           "g": g.tolist(), "problems": probs, "site": {"oracle": "purity"}})
